@@ -1,5 +1,4 @@
 SPECIFICATION Spec
 CONSTANTS Mode = "rescan" MaxAtoms = 3
 INVARIANT NoHiddenCommand
-INVARIANT Exact
 CHECK_DEADLOCK FALSE
